@@ -296,6 +296,22 @@ def proof_coverage(prop, res, extra_obligations=0, extra_discharged=0):
         "theorems": st["theorems"],
         "print_assumptions_closed": "%d/%d" % (st["closed"], st["printed"]),
     })
+    if ok and res.tier == "thorough" and os.environ.get("VERIF_SKIP_COQCHK") != "1":
+        # independent re-check of the compiled property file and everything it depends on
+        with open(os.path.join(VERIF, ".coq.lock"), "w") as lf:
+            fcntl.flock(lf, fcntl.LOCK_EX)
+            t0 = time.time()
+            p = run(["timeout", "3000", "coqchk", "-silent", "-o", "-Q", COQ, "Gleece", "Gleece.Properties." + prop],
+                    cwd=COQ, check=False, timeout=3100)
+        out = p.stdout.decode(errors="replace") + p.stderr.decode(errors="replace")
+        m = re.search(r"\* Axioms:\s*(.*?)\n\s*\n", out, re.S)
+        res.coverage["coqchk"] = {"exit": p.returncode, "axioms": (m.group(1).strip() if m else "?"),
+                                  "wall_s": round(time.time() - t0, 1)}
+        if p.returncode != 0 or not m or m.group(1).strip() != "<none>":
+            ok = False
+            res.violation({"kind": "proof-obligation", "obligation": "coqchk -o Gleece.Properties.%s" % prop,
+                           "detail": out[-2000:]}, no_input=True)
+            return ok
     if not ok:
         res.violation({"kind": "proof-obligation",
                        "obligation": "coq/Properties/%s.v no longer checks or is not closed" % prop,
